@@ -72,6 +72,8 @@ class _Build:
         rec, o_bq, o_bs = self.rec, self.o_bq, self.o_bs
 
         def base(s2):
+            if s2.get("k") == "sel" and s2.get("where_first") and s2.get("where") is not None:
+                return _build_where_first(s2)
             return _build_update_bound(s2) if (s2.get("k") == "upd" and s2.get("set_tbl")) else o_bq(s2)
 
         def build_query(s):
@@ -103,12 +105,71 @@ class _Build:
                 rec[id(spec)] = sub
                 rec[("tag", id(spec))] = sub.alias
                 return sub
+            if s[0] == "t" and len(s) > 2 and s[2] and s[2].get("for"):
+                return _temporal(o_bs(s), s[2]["for"])
             return o_bs(s)
         qf.build_query, qf.build_source = build_query, build_source
         return self
 
     def __exit__(self, *a):
         qf.build_query, qf.build_source = self.o_bq, self.o_bs
+
+
+def _temporal(tb, kind):
+    """the table with a temporal clause: FOR SYSTEM_TIME AS OF .. / FROM .. TO .. / BETWEEN .. / FOR PORTION OF .. (alias kept)"""
+    from pypika.terms import SystemTimeValue, Field
+    st = SystemTimeValue()
+    if kind == "as_of":
+        return tb.for_(st.as_of("2020-01-01"))
+    if kind == "from_to":
+        return tb.for_(st.from_to("2020-01-01", "2020-02-01"))
+    if kind == "between":
+        return tb.for_(st.between("2020-01-01", "2020-02-01"))
+    if kind == "portion":
+        return tb.for_portion(st.from_to("2020-01-01", "2020-02-01"))
+    if kind == "field":
+        return tb.for_(Field("valid_period").between("2020-01-01", "2020-02-01"))
+    raise ValueError(kind)
+
+
+def _build_where_first(s):
+    """a SELECT whose (first) where() call precedes every from_() / join(): select(..).where(..).from_(..).join(..)..."""
+    import pypika.enums as E
+    from pypika import Order
+    Q = qf.qclass(s["cls"])
+    fobjs = [qf.build_source(x) for x in s.get("from", [])]
+    jobjs = [qf.build_source(j[1]) for j in s.get("joins", [])]
+    q = Q._builder()
+    for name, sub in s.get("with", []):
+        q = q.with_(qf.build_query(sub), name)
+
+    def rest(q=q):
+        if s.get("selects") and s.get("select_first", True):
+            q = q.select(*[qf.build_item(i) for i in s["selects"]])
+        q = q.where(qf.build_item(s["where"]))
+        for o in fobjs:
+            q = q.from_(o)
+        for (how, _, cond), o in zip(s.get("joins", []), jobjs):
+            j = q.join(o, getattr(E.JoinType, how))
+            q = j.on(qf.build_item(cond[1])) if cond[0] == "on" else (j.using(*cond[1]) if cond[0] == "using" else j.cross())
+        if s.get("selects") and not s.get("select_first", True):
+            q = q.select(*[qf.build_item(i) for i in s["selects"]])
+        if s.get("distinct"):
+            q = q.distinct()
+        for g in s.get("groupby", []):
+            q = q.groupby(qf.build_item(g))
+        if s.get("having") is not None:
+            q = q.having(qf.build_item(s["having"]))
+        for it, d in s.get("orderby", []):
+            q = q.orderby(qf.build_item(it), **({"order": getattr(Order, d)} if d else {}))
+        if s.get("limit") is not None:
+            q = q.limit(s["limit"])
+        if s.get("offset") is not None:
+            q = q.offset(s["offset"])
+        if s.get("alias") is not None:
+            q = q.as_(s["alias"])
+        return q
+    return qf._with_sources(fobjs + jobjs, rest)
 
 
 def unchain_and(w, n):
@@ -599,6 +660,8 @@ class CGen(qf.QGen):
             elif r < 0.35 + self.p_pretag and not q.get("with"):
                 q["pretag"] = self.r.choice([0, 0, 0, 1])
             return ["q", q]
+        if self.r.random() < 0.04:
+            return ["t", self.tref(alias_p=0.7), {"for": self.r.choice(["as_of", "from_to", "between", "portion", "field"])}]
         return ["t", self.tref()]
 
     def select(self, cls, depth=0, small=False, nsel=None):
@@ -664,6 +727,9 @@ class CGen(qf.QGen):
                         sub["where"] = ["cplx", op, w, ct] if self.r.random() < 0.5 else ["cplx", op, ct, w]
                         if op == "and" and self.r.random() < 0.7:
                             sub["where_split"] = 1        # two .where() calls, the correlating one first or last
+                    if self.r.random() < 0.25 and not sub.get("with"):
+                        sub["where_first"] = True         # ... and the (first) where() call precedes from_()
+                        sub["select_first"] = self.r.random() < 0.5
                 else:
                     pos = self.r.choice(["select", "having", "groupby", "orderby"])
                     if pos == "select" and sub["selects"] and sub["selects"][0][0] == "t" and sub["selects"][0][1][0] != "star":
@@ -1118,6 +1184,35 @@ def _corpus_builtin():
     qw = sel("Query", [["t", T]], [["t", _f("a", s0)], ["t", _f("b", s1)]], joins=[["inner", ["t", T], on(1)]])
     qw["with"] = [["t2", cte]]
     out.append({"kind": "stmt", "q": sentinelise(qw)})
+    # the flag x call order: the (first) where() of a correlated sub-query BEFORE from_() (select first / last; 1-2 where calls)
+    for cls, kind in (("Query", "stmt"), ("SQLLiteQuery", "exec")):
+        for sf in (True, False):
+            for order in (["corr"], ["corr", "loc1"], ["loc1", "corr"]):
+                corr = ["t", ["basic", "eq", _f("id", s0), _f("id", T), None]]
+                items = [copy.deepcopy({"corr": corr, "loc1": loc1}[k_]) for k_ in order]
+                w = items[0]
+                for it in items[1:]:
+                    w = ["cplx", "and", w, it]
+                inner = sel(cls, [["t", U]], [["t", ["func", "MAX", [_f("a", s0)], None]]], where=w, where_first=True, select_first=sf)
+                if len(items) > 1:
+                    inner["where_split"] = len(items) - 1
+                q_ = sel(cls, [["t", T]], [["t", _f("id", s0)], ["sub", inner]])
+                out.append({"kind": kind, "q": q_ if kind == "exec" else sentinelise(q_)})
+        inner = sel(cls, [["t", U]], [["t", _f("a", s0)]], where=["t", ["basic", "lte", _f("b", s0), _f("b", T), None]], where_first=True)
+        q_ = sel(cls, [["t", T]], [["t", _f("id", s0)]], where=["in", _f("a", s0), inner, False])
+        out.append({"kind": kind, "q": q_ if kind == "exec" else sentinelise(q_)})
+    # temporal clause x alias x schema x position (FROM / JOIN) x class
+    for cls in ("Query", "MSSQLQuery", "ClickHouseQuery"):
+        for tk_ in ("as_of", "from_to", "between", "portion", "field"):
+            for sch in ([], ["hr"]):
+                for al in ("old", None):
+                    tsrc = ["t", ["employee", list(sch), al], {"for": tk_}]
+                    cur = ["t", ["employee", [], "cur"]]
+                    for frm, jn in (([cur], tsrc), ([tsrc], cur), ([tsrc, cur], None)):
+                        joins_ = [] if jn is None else [["inner", jn, ["on", ["t", ["basic", "eq", _f("id", s0), _f("id", s1), None]]]]]
+                        out.append({"kind": "stmt", "q": sentinelise(sel(cls, copy.deepcopy(frm), [["t", _f("id", s0)], ["t", _f("salary", s1)]],
+                                                                         joins=copy.deepcopy(joins_),
+                                                                         where=["t", ["basic", "ne", _f("salary", s0), _f("salary", s1), None]]))})
     # pinned shapes that must stay right
     x1, x2 = ["x", ["d", "s"], None], ["x", ["s2"], None]
     out.append({"kind": "stmt", "q": sentinelise(sel("Query", [["t", x1]], [["t", _f("a", s0)], ["t", _f("b", s1)]],
@@ -1206,6 +1301,7 @@ def run_impl(case):
             al = getattr(so, "alias", None)
             tn = so._table_name if src[0] == "t" else None
             ent.append({"kind": _source_kind(src, ua), "user_alias": ua, "alias": al, "table": tn, "join": k_ >= nfrom_,
+                        "temporal": (src[2].get("for") if (src[0] == "t" and len(src) > 2 and src[2]) else None),
                         "schema": list(src[1][1] or []) if src[0] == "t" else None,
                         "pretag": bool(src[0] == "q" and src[1].get("pretag") is not None)})
         names[str(sid)] = ent
@@ -1272,6 +1368,11 @@ def to_coq(case, outcome):
         except Exception:  # noqa
             return None
     # (set-operation sources are modelled like any other since 187adc3 / c9e6663: no exclusions any more)
+    for s_, _, _ in all_statements(case["q"]):
+        if s_.get("where_first") and s_.get("where") is not None:
+            return None        # where() before from_(): the flag depends on the call order, which the statement model has not
+        if any(len(x) > 2 and x[2] and x[2].get("for") for x in own_sources(s_)):
+            return None        # temporal clause on a source: not in Query.table_sql
     tagged = [s_ for s_, _, _ in all_statements(case["q"]) if s_.get("pretag") is not None]
     spec = coq_spec(case["q"], {id(s_): a for s_, a in zip(tagged, outcome.get("pretags", []))})
     # the sentinels of the TOP statement's own clauses in text order, with the clause the TEXT puts them in
@@ -1538,6 +1639,19 @@ def oracle(case, outcome):
         if not any(".".join(qc + x + qc for x in chain) in text for qc in ('"', "`", "")):
             viols.append({"signature": ["C10", "from", "table", "schema-order"],
                           "what": "table %r is not written outermost-first in %r" % (".".join(chain), text[:300])})
+    # (a3) an aliased table source (FROM item, joined table, UPDATE / INSERT target) is introduced under that alias:
+    #      <table> [FOR ...] [AS] <alias>, with or without a temporal clause
+    for sid, ent in names.items():
+        if ent is None:
+            continue
+        for e in ([ent] if sid.endswith(":target") else ent):
+            if e.get("kind") not in ("table", "aliased-table") or not e.get("alias") or not e.get("table"):
+                continue
+            if not any(re.search(r"(?<![\w])" + re.escape(qc + e["table"] + qc) + r"(?: FOR [^,]*?)? (?:AS )?" + re.escape(qa + e["alias"] + qa) + r"(?![\w.])", text)
+                       for qc in ('"', "`", "") for qa in ('"', "`", "")):      # (alias_quote_char may differ from quote_char)
+                viols.append({"signature": ["C10", "from/join", e["kind"], "alias-not-declared" + ("-temporal" if e.get("temporal") else "")],
+                              "what": "columns of table %r are qualified by %r but no source is introduced under that name in %r"
+                                      % (e["table"], e["alias"], text[:300])})
     # (b) invented names within one statement
     for sid, ent in names.items():
         if ent is None or sid.endswith(":target"):
@@ -1552,12 +1666,12 @@ def oracle(case, outcome):
         tgt = names.get(sid + ":target")
         if tgt is not None and not tgt["alias"]:
             plain.append(tgt["table"])
-        base = [(e["table"], e.get("schema")) for e in ent if not e.get("join") and e["kind"] == "table" and not e["alias"]]
+        base = [(e["table"], e.get("schema"), e.get("temporal")) for e in ent if not e.get("join") and e["kind"] == "table" and not e["alias"]]
         if tgt is not None and not tgt["alias"] and tgt.get("schema") is not None:
-            base.append((tgt["table"], tgt["schema"]))
+            base.append((tgt["table"], tgt["schema"], None))
         for e in ent:
             # do_join's promise: an un-aliased joined table EQUAL to a base table (FROM item / UPDATE target) is renamed
-            if e.get("join") and e["kind"] == "table" and not e["alias"] and (e["table"], e.get("schema")) in base:
+            if e.get("join") and e["kind"] == "table" and not e["alias"] and (e["table"], e.get("schema"), e.get("temporal")) in base:
                 viols.append({"signature": ["C10", "from/join", "table", "joined-table-keeps-base-table-name"],
                               "what": "statement #%s joins un-aliased table %r which is also a base table, under the same name: %r"
                                       % (sid, e["table"], text[:300])})
